@@ -15,6 +15,8 @@ core/engine/engine.go and core/plugin/constructor.go (`Pandora.Gen.InstLoop.star
   are regenerated too — `runAsyncChannels`, `runAsyncRunResBuf` — but nothing depends on them: every result is received.)
 * `callback_left`, `callback_next` — the finish-callback wrapper around the shared profile (core/coreutil/schedule.go)
   returns what the profile answered and fires the callback exactly on `Left() = 0` / `Next()` not ok.
+* `engineRun_eq` — the engine's `Run` awaits as many pool results as there are pools and has no successful return inside
+  that loop (an engine with several pools "ends normally" only when every pool has).
 * `factory_per_call` — the factory the plugin registry builds for a registered constructor (`NewRPSSchedule`, `NewGun` of a
   decoded pool) decodes the plugin's config AND calls the constructor at every call: with rps-per-instance every
   instance gets a schedule of its own (`Model.C03.step (.start i)`: `own[i] := tokens`).
@@ -60,6 +62,13 @@ theorem callback_left (left : Int) (h : 0 ≤ left) :
 theorem callback_next (ok : Bool) : Gen.InstLoop.callbackNext ok = (ok, !ok) := by
   unfold Gen.InstLoop.callbackNext
   cases ok <;> simp
+
+/-- `Engine.Run` awaits one result per pool and never reports success from inside that loop: it returns nil only after
+the loop, i.e. after every pool has ended (successfully) -/
+theorem engineRun_eq :
+    Gen.InstLoop.engineRunLoop = "for $i := 0; $i < len($.config.Pools); $i++" ∧
+    Gen.InstLoop.engineRunReturnsInLoop.all (fun r => r != "return nil") = true ∧
+    Gen.InstLoop.engineRunAfterLoop = "return nil" := by decide
 
 theorem factory_per_call : Gen.InstLoop.factoryPerCall = ["getMaybeConf", "newPlugin.Call"] := rfl
 
